@@ -20,7 +20,7 @@ RULE = ("one case = one problem (qp / qp_quartic / qp_softplus / rosenbrock / be
 ASSUMPTIONS = [
     "only checkpoints stopped by the iteration limit qualify (premise of the statement)",
     "next-iterate tolerance 1e-9 relative, 1e-6 with finite-difference gradients (restored pairs equal the originals only to rounding: the checkpoint stores differences); "
-    "restored-pair tolerance 8 eps * max|history| elementwise",
+    "restored-pair tolerance 8 eps * max|history| elementwise; chain tolerance 1e-8 (exact gradients) / 1e-4 (finite differences)",
     "evaluation counts of restart vs uninterrupted run are recorded, not demanded",
     "chain links are judged against the continuation of the run they restart; against the original run only while every update was accepted",
     "a mismatch against the original run is skipped (counted) when the two rounding-level different iterates disagree on which variables sit exactly on a bound, or when more pairs than variables are stored",
@@ -48,7 +48,7 @@ def cases(tier, seed):
         yield {"problem": ps, "maxcor": int(rng.integers(1, 8)), "K": int(rng.integers(4, 13)), "maxls": int(gen.pick(rng, [1, 2, 3, 3] if hard else [5, 20, 20])),
                "eps_SY": float(gen.pick(rng, [2.2e-16, 1e-3, 1e-2, 0.1])) if hard else 2.2e-16,
                "long_chain": bool(rng.random() < 0.25), "eps": float(gen.pick(rng, [1e-8, 1e-8, 1e-3, 1e-1])),
-               "jac": gen.pick(rng, ["callable", "callable", "callable", None, "2-point"]),
+               "jac": "callable" if hard else gen.pick(rng, ["callable", "callable", "callable", None, "2-point"]),  # (acceptance decisions at their threshold + differencing noise: not decidable)
                "maxfun": int(gen.pick(rng, [100000, 100000, 60, 120, 250]))}
 
 
@@ -123,6 +123,10 @@ def run(spec):
         # a finite-difference gradient turns the rounding-level differences of the restored history into differences of
         # order eps_machine*|f|/h ~ 1e-8 in the gradient: "equal up to rounding" is judged at that level
         XT = 1e-6
+    # chains: every link adds one restoration of the history (differences -> points -> differences); with finite differences each
+    # restoration perturbs the gradients at the 1e-8 level, which the following iterations amplify: observed up to 3.4e-5 after
+    # 2-4 links on well-conditioned QPs (sweep of 2026-09-27), so the chain tolerance is 1e-4 there (1e-8 with exact gradients)
+    CT = 10 * XT if base["jac"] == "callable" else 1e-4
     K = spec["K"]
     tags = dict(family=P.spec["family"])
     keys = set()
@@ -219,10 +223,10 @@ def run(spec):
             ec = relerr(nxt.result.x, cont.result.x)
             out.count("chains_checked")
             out.maxi("max_chain_relerr", ec)
-            if not (ec <= 10 * XT) and cur.result.hess_inv.sk.shape[0] > P.n:
+            if not (ec <= CT) and cur.result.hess_inv.sk.shape[0] > P.n:
                 out.count("skipped_rank_deficient_memory")
                 break
-            if not (ec <= 10 * XT):
+            if not (ec <= CT):
                 out.violate("chained_continuation_differs", f"{where}: restarting the restarted run at iteration {kk - 1} gives an iterate {kk} that differs "
                             f"by {ec:.3e} from letting the restarted run continue", what="chain", **tags)
                 break
@@ -231,13 +235,13 @@ def run(spec):
                 if uu.exc is None:
                     eo = relerr(nxt.result.x, uu.result.x)
                     prev_orig = full(kk - 1)
-                    if not (eo <= 10 * XT) and prev_orig.exc is None and degenerate_active_set(P, cur.result.x, prev_orig.result.x):
+                    if not (eo <= CT) and prev_orig.exc is None and degenerate_active_set(P, cur.result.x, prev_orig.result.x):
                         out.count("skipped_degenerate_active_set")
                         gapfree = False
                         prev_ck = cur.result
                         cur = nxt
                         continue
-                    if not (eo <= 10 * XT) and cur.result.hess_inv.sk.shape[0] > P.n:
+                    if not (eo <= CT) and cur.result.hess_inv.sk.shape[0] > P.n:
                         # more pairs than variables: the compact system is singular and amplifies the rounding-level
                         # differences of the restored history without bound
                         out.count("skipped_rank_deficient_memory")
@@ -247,7 +251,7 @@ def run(spec):
                         continue
                     out.count("chains_checked_against_original_run")
                     out.maxi("max_chain_vs_original_relerr", eo)
-                    if not (eo <= 10 * XT):
+                    if not (eo <= CT):
                         out.violate("chained_continuation_differs", f"{where}: after {j + 2} chained restarts iterate {kk} differs from the "
                                     f"original uninterrupted run by {eo:.3e} although every update was accepted", what="chain_original", **tags)
                         break
